@@ -16,7 +16,8 @@ META = {
             "that the rows and columns of h and hbar are exactly the identity: weight one on (h,h) and (hbar,hbar), zero to and "
             "from every other parton including gluon and photon. Since a path that never activates h is a product of such "
             "factors and the identity block is preserved by products, h and hbar are transported unchanged end to end."
-            " Every path between 3-5 flavours contains only segments and matchings within the flavour numbers of its end points (exhaustive matched_path).",
+            " Every path between 3-5 flavours contains only segments and matchings within the flavour numbers of its end points (exhaustive matched_path)."
+            " runner.commons.atlas asked for initial flavour numbers 4, 3, 5, 4 (same scales) in one evaluator returns an atlas starting in the flavour number of that card.",
     "note": "Exhaustive over the finite configuration space, exact; member values symbolic so the statement holds for any "
             "computed kernels. The product argument is linear algebra on block structure.",
     "technique": "partial evaluation over the finite configuration space + polynomial identity testing on the block structure",
@@ -58,6 +59,53 @@ def _case(chk, case):
                f"{inst}: {what[info['index']] if not ok else ''} is not {'one' if not ok and 'pid' in what[info['index']] and what[info['index']].split()[3] == what[info['index']].split()[-1] else 'as required (identity block)'}"
                f" for the inactive quark(s) {inactive}", where=f.where, instance=inst, data={"witness": info},
                detail=f"inactive {inactive}: identity rows/columns", how="PE + PIT F_p")
+
+
+def atlas_follows_the_card(chk, src, rule="path-starts-in-the-flavour-number-of-this-run"):
+    """runner.commons.atlas asked several times in ONE process for cards with the same matching scales and initial scale but different
+    initial flavour numbers: the atlas it returns starts in the flavour number of THAT card - with the origin of an earlier run the
+    path contains segments and matchings of a quark that is never active in this one."""
+    from fractions import Fraction
+
+    from ..arr import Arr
+    from ..pe import Opaque, named_arguments
+
+    fat = src.func("eko.runner.commons.atlas")
+    pe = PE(src)
+    made = []
+
+    def mk_atlas(p_, a, k):
+        o = Opaque()
+        o.made_with = named_arguments(k)
+        made.append(o)
+        return o
+
+    pe.overrides["eko.matchings.Atlas"] = mk_atlas
+    pe.overrides["eko.io.runcards.masses"] = lambda p_, a, k: [Fraction(2), Fraction(20), Fraction(30000)]
+    bad = None
+    n = 0
+    for nf0 in (4, 3, 5, 4):
+        th, op = Opaque(), Opaque()
+        th.heavy = Opaque()
+        th.heavy.matching_ratios = Arr.from_nested([Fraction(1), Fraction(1), Fraction(1)])
+        op.mu20 = Fraction(3)
+        op.init = (dag.sym("mu0"), nf0)
+        op.configs = Opaque()
+        op.configs.evolution_method = "METHOD"
+        try:
+            got = pe.call(fat.qname, [th, op])
+        except PERaise as e:
+            bad = bad or (nf0, f"raises {e}")
+            continue
+        n += 1
+        origin = getattr(got, "made_with", {}).get("origin") if isinstance(got, Opaque) else None
+        if not (isinstance(origin, tuple) and len(origin) == 2 and origin[1] == nf0 and origin[0] == Fraction(3)) and bad is None:
+            bad = (nf0, f"returns an atlas with origin {origin}")
+    chk.decide(bad is None, rule, fat.qname,
+               f"atlas asked for initial flavour numbers 4, 3, 5, 4 (same scales) in one process: for nf0 = {bad[0] if bad else ''} it {bad[1] if bad else ''}; "
+               f"required origin (mu0^2, nf0) of the card of that call - the path of an earlier run crosses matchings of quarks that are never active here",
+               where=fat.where, instance="atlas requests in one process", how="PE of consecutive requests in one evaluator with a recording Atlas")
+    chk.floor("atlas requests", n, 4)
 
 
 def run(chk):
@@ -103,6 +151,7 @@ def run(chk):
                detail=f"{n_paths} paths", how="exhaustive PE of Atlas.matched_path")
     chk.floor("paths", n_paths, 400)
     chk.floor("configurations", len(cases), 10)
+    atlas_follows_the_card(chk, src)
     chk.note(instances=len(cases), files=["src/eko/evolution_operator/physical.py", "src/eko/evolution_operator/matching_condition.py",
                                           "src/eko/member.py", "src/eko/evolution_operator/flavors.py"])
     chk.explanation = "Identity block of inactive heavy quarks in every evolution / matching label set, for symbolic members."
